@@ -7,7 +7,7 @@ set -u
 patch="$(readlink -f "$1")"; shift
 base=/var/tmp/vs-seed
 if [ ! -d "$base/repo" ]; then /verif/tools/scratch.sh new seed >/dev/null || exit 3; fi
-cd "$base/repo" && git checkout -q -- . && git clean -qfd -e target && git checkout -q --detach "$(git -C /repo rev-parse HEAD)" || exit 3
+cd "$base/repo" && git reset -q --hard && git clean -qfd -e target && git checkout -q --detach "$(git -C /repo rev-parse HEAD)" || exit 3
 # refresh harness copy (keep target), rewrite paths
 rsync -a --delete --exclude target /verif/harness/ "$base/verif/harness/"
 cp /verif/check /verif/known_findings.jsonl "$base/verif/"
@@ -15,7 +15,7 @@ rsync -a --delete --exclude 'found-*' /verif/regressions/ "$base/verif/regressio
 [ -d /verif/corpus ] && rsync -a /verif/corpus "$base/verif/"
 grep -rl '/repo' "$base/verif/harness" --include=Cargo.toml --include='*.rs' --include=config.toml --include=build.rs 2>/dev/null | xargs -r sed -i "s#/repo#$base/repo#g"
 sed -i "s#/repo/Cargo.lock#$base/repo/Cargo.lock#g" "$base/verif/check"
-git apply "$patch" 2>/dev/null || git apply --3way "$patch" 2>/dev/null || { echo "PATCH DOES NOT APPLY"; git checkout -q -- .; exit 3; }
+git apply "$patch" 2>/dev/null || git apply --3way "$patch" 2>/dev/null || { echo "PATCH DOES NOT APPLY"; git reset -q --hard; exit 3; }
 git reset -q 2>/dev/null
 rc_all=0
 for id in "$@"; do
@@ -24,5 +24,5 @@ for id in "$@"; do
   echo "$out" | grep -E "VIOLATION|signature:|INCONCLUSIVE|BUILD FAILED|^\[" | cut -c1-260 | head -12
   [ $rc -eq 1 ] || rc_all=1
 done
-git checkout -q -- . ; git clean -qfd -e target
+git reset -q --hard ; git clean -qfd -e target
 exit $rc_all
